@@ -107,13 +107,18 @@ type vEng struct {
 	dead     bool
 	fired    map[string]bool
 	nontriv  bool
+	// blockingDonePool observation (in-memory queue): the object attached to each enqueued request
+	reqPtr map[int]*blockingDone
+	objIdx map[*blockingDone]int
+	reqObj map[int]int
 }
 
 var vErrX = errors.New("verif consumer error")
 
 func vNewEng(out *vOut, kind int, capacity int64, blocking, wfr, reqSizer bool) *vEng {
 	e := &vEng{out: out, kind: kind, cap: capacity, blocking: blocking, wfr: wfr, prods: map[int]*vProd{},
-		dones: map[int]Done{}, doneErr: map[int]error{}, finished: map[int]bool{}, sizes: map[int]int64{}, fired: map[string]bool{}}
+		dones: map[int]Done{}, doneErr: map[int]error{}, finished: map[int]bool{}, sizes: map[int]int64{}, fired: map[string]bool{},
+		reqPtr: map[int]*blockingDone{}, objIdx: map[*blockingDone]int{}, reqObj: map[int]int{}}
 	var sizer request.Sizer[vReq] = vSizer{}
 	if reqSizer {
 		sizer = request.RequestsSizer[vReq]{}
@@ -166,6 +171,11 @@ func (e *vEng) itemIDs() []int {
 	if e.kind == 0 {
 		for n := e.mq.items.head; n != nil; n = n.next {
 			ids = append(ids, n.data.id)
+			if bd, ok := n.done.(*blockingDone); ok {
+				if _, have := e.reqPtr[n.data.id]; !have {
+					e.reqPtr[n.data.id] = bd
+				}
+			}
 		}
 		return ids
 	}
@@ -221,6 +231,40 @@ func (e *vEng) lab(t, a, b, res int64) {
 		cl = 10
 	}
 	e.out.Stat(fmt.Sprintf("label_%02d_res_%d", t, cl), 1)
+}
+
+// objBefore / objAfter bracket the label in which request id was enqueued (in-memory queue): which blockingDone
+// did pool.Get hand out?  An object already seen in this case must come from the pool: label LPick (11) tells the
+// model which one; an unseen object counts as new.  LObj (12) then asserts "request id carries object idx": the
+// model refuses it when its own pool bookkeeping says otherwise (e.g. the object is still referenced).
+func (e *vEng) objBefore(id int) {
+	if e.kind != 0 {
+		return
+	}
+	bd := e.reqPtr[id]
+	if bd == nil {
+		return
+	}
+	if idx, seen := e.objIdx[bd]; seen {
+		e.lab(11, int64(idx), 0, 0)
+		e.reqObj[id] = idx
+		e.out.Stat("pool_reuse", 1)
+		return
+	}
+	idx := len(e.objIdx)
+	e.objIdx[bd] = idx
+	e.reqObj[id] = idx
+	e.lab(11, int64(idx), 0, 0) // not a pooled object: the model's Get calls New (the previous pick must not linger)
+	e.out.Stat("pool_new", 1)
+}
+
+func (e *vEng) objAfter(id int) {
+	if e.kind != 0 {
+		return
+	}
+	if idx, ok := e.reqObj[id]; ok {
+		e.lab(12, int64(id), int64(idx), 0)
+	}
 }
 
 // observe attaches the current stable snapshot to the last label.
@@ -437,7 +481,9 @@ func (e *vEng) opOffer(p *vProd) {
 	case p.returned && vErrClass(p.ret) == 8:
 		// context already ended before Offer: blocked then left on ctx, or enqueued then gave up waiting for the result
 		if p.enq {
+			e.objBefore(p.id)
 			e.lab(0, int64(p.id), p.sz, 5)
+			e.objAfter(p.id)
 			e.lab(9, int64(p.id), 0, 8)
 		} else {
 			e.lab(0, int64(p.id), p.sz, 4)
@@ -457,7 +503,13 @@ func (e *vEng) opOffer(p *vProd) {
 	default:
 		res = 4
 	}
+	if p.enq {
+		e.objBefore(p.id)
+	}
 	e.lab(0, int64(p.id), p.sz, res)
+	if p.enq {
+		e.objAfter(p.id)
+	}
 	e.observe()
 	if res == 99 {
 		e.oracle("unexpected-offer-error", fmt.Sprint(p.ret))
@@ -477,11 +529,13 @@ func (e *vEng) wakeLabels(before map[int]int64, newEnq []*vProd) {
 	for _, p := range newEnq {
 		seen[p.id] = true
 		e.lab(1, int64(p.id), 0, 0)
+		e.objBefore(p.id)
 		if e.wfr {
 			e.lab(3, int64(p.id), 0, 5)
 		} else {
 			e.lab(3, int64(p.id), 0, 0)
 		}
+		e.objAfter(p.id)
 		e.nontriv = true
 	}
 	for _, p := range e.waiters() {
@@ -612,13 +666,15 @@ func (e *vEng) opDone(id int, cls int64) {
 		return
 	}
 	e.lab(7, int64(id), cls, 0)
-	e.wakeLabels(n0, e.newlyEnq(enq0))
+	// the producer's receive (which returns its blockingDone to the pool) before the woken producers' re-lock
+	// (which may Get that very object): the two commute otherwise
 	if wasWaitingResult {
 		e.lab(8, int64(id), 0, 100+cls)
 		if p.ret != err {
 			e.oracle("wait-for-result-wrong-outcome", fmt.Sprintf("p%d got %v want %v", id, p.ret, err))
 		}
 	}
+	e.wakeLabels(n0, e.newlyEnq(enq0))
 	e.observe()
 	e.stableOracle()
 }
@@ -1041,16 +1097,6 @@ func vForced(out *vOut, rng *vRand, c int) {
 				}
 			}
 		}
-		for _, p := range takers {
-			res := int64(4)
-			if p.enq {
-				res = 0
-				if e.wfr {
-					res = 5
-				}
-			}
-			e.lab(3, int64(p.id), 0, res)
-		}
 		if e.wfr {
 			for _, x := range dns {
 				if p := e.prods[x.id]; p.returned {
@@ -1059,6 +1105,20 @@ func vForced(out *vOut, rng *vRand, c int) {
 						e.oracle("wait-for-result-wrong-outcome", fmt.Sprintf("forced p%d got %v want nil", x.id, p.ret))
 					}
 				}
+			}
+		}
+		for _, p := range takers {
+			res := int64(4)
+			if p.enq {
+				res = 0
+				if e.wfr {
+					res = 5
+				}
+				e.objBefore(p.id)
+			}
+			e.lab(3, int64(p.id), 0, res)
+			if p.enq {
+				e.objAfter(p.id)
 			}
 		}
 		e.observe()
